@@ -84,6 +84,44 @@ def ternary_alphabet():
     return A
 
 
+_SD = {}
+
+
+def search_direction(x, T):
+    """the search direction the precipitation model passes for an undersaturated matrix: the nucleus composition of the driving-force
+    calculation at that point (computed once, from an object with empty caches)"""
+    key = (tuple(x), T)
+    if key not in _SD:
+        t = therm("nicral", fresh=True)
+        _, xb = t.getDrivingForce(np.array(x, dtype=float), T, removeCache=True)
+        _SD[key] = tuple(float(v) for v in np.ravel(xb))
+    return _SD[key]
+
+
+def search_alphabet():
+    """Ni-Cr-Al: curvature / impingement at undersaturated single-phase compositions WITH a search direction (a defined answer: the
+    two-phase equilibrium found on the line towards the nucleus composition)"""
+    A = []
+    for x in [(0.01, 0.01), (0.02, 0.015)]:
+        sd = search_direction(x, 1073.15)
+        A.append(("curvS", (x, 1073.15, sd)))
+        A.append(("impingS", (x, 1073.15, sd)))
+    return A
+
+
+def search_histories(alphabet, searches):
+    """a stable kept-cache query, then a search query (kept or discarded), then stable queries again, and the search query first"""
+    stable = [a for a in alphabet if a[0] in ("curv", "imping")]
+    hist = []
+    for s1 in stable[:4]:
+        for q in searches:
+            for r in (False, True):
+                hist.append([("q",) + s1 + (False,), ("q",) + q + (r,), ("q",) + s1 + (False,), ("q",) + q + (False,)])
+    for q in searches:
+        hist.append([("q",) + q + (False,), ("q",) + q + (False,)] + [("q",) + s_ + (False,) for s_ in stable[:2]])
+    return hist
+
+
 def two_phase_alphabet():
     """Fe-Cr-Ni: driving force and the diffusivities of the matrix phase AND of the second phase"""
     xs = [(0.25, 0.10), (0.22, 0.12)]
@@ -106,6 +144,14 @@ def do_query(t, kind, point, remove):
         keep = xa.copy()
         out = (t.getInterdiffusivity if kind == "interdiffP" else t.getTracerDiffusivity)(xa, T, removeCache=remove, phase=ph)
         return out, bool(np.array_equal(xa, keep))
+    if kind in ("curvS", "impingS"):
+        x, T, sd = point
+        xa, sda = np.array(x, dtype=float), np.array(sd, dtype=float)
+        keep = (xa.copy(), sda.copy())
+        import io, contextlib
+        with contextlib.redirect_stdout(io.StringIO()):
+            out = (t.curvatureFactor if kind == "curvS" else t.impingementFactor)(xa, T, removeCache=remove, searchDir=sda)
+        return out, bool(np.array_equal(xa, keep[0]) and np.array_equal(sda, keep[1]))
     if kind in ("df", "interdiff", "tracer", "curv", "imping"):
         x, T = point
         xa = np.array(x, dtype=float) if isinstance(x, tuple) else x
@@ -177,6 +223,20 @@ def gen_histories(rng, alphabet, tier):
     return hist
 
 
+def aside_histories(alphabet, asides):
+    """stable query, query where the precipitate is NOT stable (documented fall-back to the previous result, caches kept), then stable
+    queries at other points: the later answers must be those of an object with empty caches"""
+    stable = [a for a in alphabet if a[0] in ("curv", "imping", "df")]
+    hist = []
+    for s1 in [a for a in stable if a[0] in ("curv", "imping")][:2]:
+        for ak in ("curv", "imping"):
+            for ap in asides:
+                for s2 in stable:
+                    if s2[1] != s1[1]:
+                        hist.append([("q",) + s1 + (False,), ("aside", ak, ap, False), ("q",) + s2 + (False,), ("q",) + s1 + (False,)])
+    return hist
+
+
 def run_history(system, h, memo):
     t = therm(system)
     t.clearCache()
@@ -189,6 +249,12 @@ def run_history(system, h, memo):
                 ev.append({"e": "clear"})
                 continue
             _, kind, point, remove = op
+            if op[0] == "aside":
+                import io, contextlib
+                with contextlib.redirect_stdout(io.StringIO()):
+                    out, intact = do_query(t, kind, point, remove)
+                ev.append({"e": "aside", "kind": kind, "point": str(point), "remove": bool(remove), "argintact": intact})
+                continue
             out, intact = do_query(t, kind, point, remove)
             key = (kind, point)
             e = {"e": "query", "kind": kind, "point": str(point), "remove": bool(remove), "vsmemo": vcmp(out, memo[key]),
